@@ -6,7 +6,10 @@ endpoints (the property's own statement), with the captured wire and with `negot
 Base pairs with a ServerHello message hook (appended / rewritten ALPN, swapped cipher suite) check that the server's
 committed view is a function of its FINAL ServerHello (F82, repaired; model negotiate_steered / agreement12_hooked),
 and a pair on a user-supplied cipher suite (WithCustomCipherSuites) checks the exporter clause there (known item:
-ExportKeyingMaterial fails, model gap export_as_coded / C01_export_unavailable_on_custom_suite_refuted)."""
+ExportKeyingMaterial fails, model gap export_as_coded / C01_export_unavailable_on_custom_suite_refuted).
+Leg "names" (zz_verif_c01_names_test.go, model Neg/C01Names.v): agreement on the VALUE of negotiated names - lists whose
+entries are equal up to a normalisation but not byte-identical (letter case, Unicode folding / form, surrounding bytes,
+prefixes, duplicates, empty / absent), server names in another letter case; theorems C01_alpn_bytes_agree*."""
 import json
 import vlib
 import c11lib
@@ -148,14 +151,14 @@ def names_leg(chk):
         chk.broken("model Neg/C01NamesRun.v no longer compiles", mout)
         return found
     final = [c for c in cases if c11lib.both_built(c) and not c["sni_name"] and (c11lib.both_ok(c) or not faulty(c))]
-    bad, err = vlib.coq_mismatches("c01n", NAMES_IMPORTS, "c01n_case", "c01n_ok", [names_term(c) for c in final], shard=80) \
+    bad, err = vlib.coq_mismatches("c01n", NAMES_IMPORTS, "c01n_case", "c01n_ok", [names_term(c) for c in final], shard=250) \
         if final else ([], "")
     cmp_cases = final
     which = "Neg.C01NamesRun.c01n_ok"
     if bad is not None and not bad:
         plain = [c for c in established if not c["sni_name"]]
         bad, err = vlib.coq_mismatches("c01ni", c11lib.IMPORTS, "c11_case", "c11_ok",
-                                       [c11lib.case_term(names_as_ids(c)) for c in plain], shard=80) if plain else ([], "")
+                                       [c11lib.case_term(names_as_ids(c)) for c in plain], shard=150) if plain else ([], "")
         cmp_cases = plain
         which = "Neg.C11Run.c11_ok (one protocol number per distinct byte string)"
     if bad is None:
@@ -304,7 +307,15 @@ def run(chk):
              "on every association both sides report as established: version, suite, 3 exporters, mirrored CIDs, RRC, ALPN, "
              "SRTP profile + MKI, peer chains vs presented chains, 2 payloads each way, and equality with `negotiate`. "
              "Non-trivial = established under a mask with at least one fault; distinct by (client set, server set, "
-             "resumption, mask).",
+             "resumption, mask). Leg names (TestVerifC01Names): 10 handshake kinds (DTLS 1.2 certificate / client "
+             "authentication / PSK / ECDHE-PSK / resumed with the same lists / resumed after a seeding association with "
+             "identically spelled lists, DTLS 1.3, SRTP-suite-group lists with duplicates) x ALPN lists whose entries are equal "
+             "up to a normalisation but not byte-identical (ASCII case, Kelvin sign / long s, NFC / NFD, leading / trailing "
+             "bytes, prefixes, duplicates, empty against absent list) + server names in another letter case + generated list "
+             "pairs, some under fault masks: agreement monitors on every established pair (names compared as bytes), every "
+             "final outcome compared with Neg/C01Names.v (refused with no_application_protocol iff no common byte string, else "
+             "that byte string on both sides; nothing on DTLS 1.3) and with `negotiate` (one protocol number per distinct byte "
+             "string).",
         assumptions=["the two endpoints act on the same final ClientHello / server answer and hold the same master secret: "
                      "established by the Finished exchange (C04); byte-level key derivation is C10",
                      "unmodified datagrams: the network only drops, duplicates, delays and reorders",
